@@ -27,10 +27,10 @@ def mklist(items, tail=NIL):
 
 def tt(x):
     """JSON lists -> term/body tuples (inverse of json round trip)"""
-    if isinstance(x, list):
-        return tuple(tt(y) for y in x)
-    if isinstance(x, tuple):
-        return tuple(tt(y) for y in x)
+    # (list comprehensions, not generator expressions inside tuple(): CPython 3.12 counts nested C calls separately and
+    # gives up after a few hundred levels - a list of 450 elements is 900 levels)
+    if isinstance(x, (list, tuple)):
+        return tuple([tt(y) for y in x])
     return x
 
 
